@@ -55,6 +55,7 @@ def run(ctx: fw.Ctx):
                        "multi-line formals end in a trailing comma, which the bundled grammar rejects: such files are in "
                        "pass-through mode (trivially reproduced)"]
     lp.trivia_correspondence(ctx)
+    lp.fragment_correspondence(ctx)
     fixture = fw.REPO / "tests" / "nix-files" / "pkgs" / "trl-default.nix"
     if fixture.exists():
         ctx.case({"fixture": str(fixture)}, True)
